@@ -108,7 +108,9 @@ func (p *c05) Run(w *lib.Worker, idx int, r *lib.Rand) lib.Case {
 				pat := gen.Patterns[rg.Intn(len(gen.Patterns))]
 				ps := pat.P
 				if rg.Bool() {
-					ps = fmt.Sprintf("%s|g%dz", pat.P, gi) // a private pattern: first compiled by this goroutine
+					// a private pattern, first compiled by this goroutine; new ones keep coming during the whole
+					// run, so that cache inserts overlap with the other goroutines' lookups
+					ps = fmt.Sprintf("%s|g%dz%d", pat.P, gi, len(perG[gi])%23)
 				}
 				perG[gi] = append(perG[gi], &c05Call{kind: "helper", pat: ps, data: append(pat.Yes, pat.No...)[rg.Intn(len(pat.Yes)+len(pat.No))]})
 			}
